@@ -713,6 +713,7 @@ def late_player_set(pid="C11l"):
          modifies=["self.machine.game.player.restart_modes_on_next_ball"], raises={},
          bounded="BOUNDED: at most 2 modes to restart")
     if pid == "C11l":
+        C.finite_checks.append(common.native_demo_check("c11_mode_starting_across_ball_end.py", "a game mode whose start is held across a ball end does not come up in the next player's turn with the previous player's state"))
         C.finite_checks.append(logic_block_leak_check())
     C.finite_checks.append(common.native_demo_check(
         "c06_turn_of_player_being_added.py",
